@@ -31,6 +31,7 @@ type poolWorld struct {
 	maxOpen  int
 	maxConns int
 	overOpen string
+	closeErr bool // the transport's Close tears the connection down but returns an error
 }
 
 func (w *poolWorld) ev(format string, a ...any) {
@@ -42,6 +43,9 @@ func (w *poolWorld) ev(format string, a ...any) {
 func (w *poolWorld) DialContext(ctx context.Context, network, addr string) (net.Conn, error) {
 	vsched.QuietSticky() // dial + handshake touch only objects private to the new connection
 	c := simnet.NewConn()
+	if w.closeErr {
+		c.CloseErr = errors.New("simnet: close_notify could not be written")
+	}
 	w.mu.Lock()
 	id := len(w.conns)
 	w.conns = append(w.conns, c)
@@ -147,9 +151,21 @@ type poolScn struct {
 	lifetime time.Duration
 	idleTime time.Duration
 	period   time.Duration
+	closeErr bool // connections whose Close reports an unclean teardown
+	cycles   int  // stale-release program: acquire / release cycles before the second handle is taken
 }
 
 func (s poolScn) id() string {
+	if s.cycles > 0 {
+		s2 := s
+		s2.cycles = 0
+		return s2.id() + fmt.Sprintf("/cycles=%d", s.cycles)
+	}
+	if s.closeErr {
+		s2 := s
+		s2.closeErr = false
+		return s2.id() + "/close-reports-error"
+	}
 	var p []string
 	for _, x := range s.progs {
 		p = append(p, holderNames[x])
@@ -160,7 +176,7 @@ func (s poolScn) id() string {
 func bodyPool(s poolScn) Body {
 	return func() Outcome {
 		name := "C11"
-		w := &poolWorld{queryOn: map[string]int{}, maxConns: s.maxConns}
+		w := &poolWorld{queryOn: map[string]int{}, maxConns: s.maxConns, closeErr: s.closeErr}
 		ctx := context.Background()
 		lifetime, idle, period := s.lifetime, s.idleTime, s.period
 		if lifetime == 0 {
@@ -228,6 +244,21 @@ func bodyPool(s poolScn) Body {
 					return
 				}
 				c1.Release()
+				// the connection goes round a number of times in between (the pool's bookkeeping
+				// per connection — handle slots, counters — wraps or is recycled at some sizes)
+				var cerr error
+				vsched.Quiet(func() {
+					for i := 0; i < s.cycles && cerr == nil; i++ {
+						var cx *chpool.Client
+						if cx, cerr = p.Acquire(ctx); cerr == nil {
+							cx.Release()
+						}
+					}
+				})
+				if cerr != nil {
+					w.ev("%s:acquire-failed:%v", h, cerr)
+					return
+				}
 				c2, aerr := p.Acquire(ctx)
 				if aerr != nil {
 					w.ev("%s:acquire-failed:%v", h, aerr)
@@ -404,7 +435,7 @@ func (w *poolWorld) openConns() int {
 
 // C11 — a pooled connection has one holder; dead or expired ones are never reissued.
 func C11(c *vk.Ctx) {
-	c.Rule("pool scenarios = N in {2, 3} holder threads x MaxConns in {1, 2}, each holder running one program of {Acquire-Do(ok)-Release, Do answered by an exception, Do ending in a transport error, Do with a cancelled context, Release three times, Pool.Do, Pool.Ping, two queries, release-reacquire-release the first handle again}, optionally a thread calling Pool.Close concurrently; plus health-check scenarios (period 1 s, idle 2 s, lifetime 5 s of fake time). The real chpool + puddle (instrumented at API granularity) + ch.Dial run under the scheduler; what a holder does on its own connection is a quiet region. All interleavings of the pool-level steps up to the preemption bound (quick 1, thorough 2). Oracle: never two holders of one connection, a connection released broken is never acquired again and never written to, open connections <= MaxConns at every dial, no panic on repeated Release, nothing acquired at the end, after Close every dialled connection is closed, idle connections are destroyed by the health check. distinct_nontrivial = executions.")
+	c.Rule("pool scenarios = N in {2, 3} holder threads x MaxConns in {1, 2}, each holder running one program of {Acquire-Do(ok)-Release, Do answered by an exception, Do ending in a transport error, Do with a cancelled context, Release three times, Pool.Do, Pool.Ping, two queries, release-reacquire-release the first handle again (also after the connection went round n acquire-release cycles in between, for every n <= 130)}, optionally a thread calling Pool.Close concurrently; plus health-check scenarios (period 1 s, idle 2 s, lifetime 5 s of fake time), plus scenarios on a transport whose Close tears the connection down but returns an error. The real chpool + puddle (instrumented at API granularity) + ch.Dial run under the scheduler; what a holder does on its own connection is a quiet region. All interleavings of the pool-level steps up to the preemption bound (quick 1, thorough 2). Oracle: never two holders of one connection, a connection released broken is never acquired again and never written to, open connections <= MaxConns at every dial, no panic on repeated Release, nothing acquired at the end, after Close every dialled connection is closed, idle connections are destroyed by the health check. distinct_nontrivial = executions.")
 	quick := c.Quick()
 	bound := 1
 	if !quick {
@@ -442,6 +473,26 @@ func C11(c *vk.Ctx) {
 		poolScn{maxConns: 2, progs: []int{hOK, hOK}, period: time.Second, idleTime: time.Hour, lifetime: 3 * time.Second, idleWait: 5 * time.Second},
 		poolScn{maxConns: 1, progs: []int{hTwoQueries, hOK}, period: time.Second, idleTime: 2 * time.Second, lifetime: 5 * time.Second, idleWait: 7 * time.Second},
 	)
+	// a transport whose Close tears the connection down but reports an error: a client that
+	// closed itself (transport error, cancelled query) must still not be reissued
+	scns = append(scns,
+		poolScn{maxConns: 1, progs: []int{hTransport, hOK}, closeErr: true},
+		poolScn{maxConns: 1, progs: []int{hCancelled, hOK}, closeErr: true},
+	)
+	if !quick {
+		scns = append(scns, poolScn{maxConns: 1, progs: []int{hOK, hOK}, closeErr: true, closer: true})
+	}
+	// the stale release after the connection has gone round n times, for EVERY n up to 130
+	// (whatever size the pool's per-connection bookkeeping wraps at, below that), alone; and
+	// next to a second holder around the powers of two
+	for n := 1; n <= 130; n++ {
+		scns = append(scns, poolScn{maxConns: 1, progs: []int{hStaleRelease}, cycles: n})
+	}
+	for _, n := range []int{15, 16, 31, 32, 63, 64, 127, 128} {
+		if !quick || n == 63 || n == 64 {
+			scns = append(scns, poolScn{maxConns: 1, progs: []int{hStaleRelease, hOK}, cycles: n})
+		}
+	}
 	minBound := 99
 	for i, s := range scns {
 		id := s.id()
@@ -464,6 +515,20 @@ func C11(c *vk.Ctx) {
 		b := bound
 		if s.idleWait > 0 && b > 1 {
 			b = 1
+		}
+		if s.cycles > 0 && len(s.progs) == 1 {
+			// one holder, nothing to interleave with: the sweep over n runs the default schedule
+			// of each n (shared out over the shards); the bound is not affected
+			if c.Mine(int64(i)) {
+				x := RunOnce(nil, false, e.Body)
+				if key, detail := e.verdict(&x); key != "" {
+					c.Violation(key, id+"@", detail, nil)
+				}
+				c.Eval("stale release after n cycles (default schedule)", 1)
+				c.AddStates(1, int64(x.Steps), 1)
+				c.DistinctN(1)
+			}
+			continue
 		}
 		st := e.Run(b)
 		Account(c, id, st)
